@@ -604,7 +604,7 @@ static QINLINE void qt_loopaccum_balance_inner(const size_t       start,
                                                const uint_fast8_t flags,
                                                synctype_t         sync_type)
 {                                      /*{{{ */
-    const qthread_shepherd_id_t           maxworkers  = qthread_num_workers();
+    const qthread_shepherd_id_t           maxworkers  = ((stop - start) > qthread_num_workers()) ? qthread_num_workers() : (stop - start);
     struct qloopaccum_wrapper_args *const qwa         = (struct qloopaccum_wrapper_args *)MALLOC(sizeof(struct qloopaccum_wrapper_args) * maxworkers);
     uint8_t                              *realrets    = NULL;
     const size_t                          each        = (stop - start) / maxworkers;
